@@ -265,7 +265,7 @@ def fragments_from(tree, rng):
 
 
 HOSTILE = {
-    'expr': [')+(', 'a),(b', 'a) if (b', 'a, b', 'a,\nb', '*a', '*a,', 'a:b', 'x for x in y', '', '#c', 'a;', 'a\nb', 'yield', 'a := b', '(a', 'a)', 'a # c\n', '\\\na', ' a', 'a if b', '*not a', 'lambda: a, b'],
+    'expr': ["'é';", "f('ü', 'ö');", 'ä;', ')+(', 'a),(b', 'a) if (b', 'a, b', 'a,\nb', '*a', '*a,', 'a:b', 'x for x in y', '', '#c', 'a;', 'a\nb', 'yield', 'a := b', '(a', 'a)', 'a # c\n', '\\\na', ' a', 'a if b', '*not a', 'lambda: a, b'],
     'expr_slice': ['a:b', 'a:b:c, d', '*a', '*not a', '][', 'a][b', ':', '::', 'a,', '', 'x for x in y', 'a:b]=[c'],
     'expr_arglike': ['*a', '*not a', 'a, b', 'a=b', '**a', 'x for x in y', ')(', 'a)(b', '', 'a:b'],
     'keyword': ['a=1', 'a=1, b=2', '**k', 'a', 'a=1)(b=2', 'a=1), _(b=2', '', 'a=(yield)', 'a = 1,', 'a=1 # c', '*a', 'a==1', 'a=x for x in y'],
@@ -288,7 +288,7 @@ HOSTILE = {
     '_decorator_list': ['@a', '@a\n@b(c)', '', 'a', '@a\nclass X: pass\n@b', '@a # c\n\n@b', '@(yield)'],
     'type_param': ['T', 'T: int', '*Ts', '**P', 'T, U', '', 'T = int', 'T] = int; type X[U'],
     '_type_params': ['T, U', 'T: int, *Ts, **P', '', 'T,', 'T] = int; type X[U'],
-    'stmt': ['a', 'a = 1', 'a; b', 'a\nb', 'if a: pass', '', 'pass;', ' a', '# c', 'if a:\n  pass\nelse:\n  pass'],
+    'stmt': ["'é';", "x = 'ü'; y", 'a', 'a = 1', 'a; b', 'a\nb', 'if a: pass', '', 'pass;', ' a', '# c', 'if a:\n  pass\nelse:\n  pass'],
 }
 
 
@@ -435,6 +435,79 @@ def check_fragment(ctx, mode, src, origin):
             return
 
 
+MATCH_CASES = [
+    'case 1: pass', 'case [a, *b]:\n    x = a', 'case {"k": v, **r} if v:\n    pass\n    y = 1', 'case C(a, b=c) as d: pass',
+    'case 1:\n  f("""a\nb""" + (1,\n    2))', 'case _:\n    s = \'\'\'x\n  y\'\'\'\n    t = (s,\n         2)', 'case "é" | "ü":\n    z = "ö" + (q,\n  r)',
+    'case (1 |\n      2): pass', 'case [\n    a,  # c\n    b,\n]:\n    pass', 'case x if (x >\n           1):\n    g(x)  # trailing',
+    'case 1: pass\ncase 2: pass', 'case 1:\n    """doc\n    more"""\ncase _:\n    u = f"""{a}\n{b}""" + (c,\n d)',
+    'case 1: pass\nelse: pass', 'x = 1', '', 'case: pass', ' case 1: pass', 'case 1: pass\n  case 2: pass', 'case 1:\npass',
+]
+
+
+def check_match_cases(ctx, mode, src):
+    """match_case / _match_cases: the fragment is embedded below `match _:` with one space of indentation on every line that
+    is not the continuation of a multi-line string; positions are compared after removing that line and that column"""
+    import fst
+    lines = src.split('\n')
+    cont = set()
+    try:
+        for t in tokenize.generate_tokens(io.StringIO(src).readline):
+            if t.type in (tokenize.STRING, getattr(tokenize, 'FSTRING_MIDDLE', -1)) and t.end[0] > t.start[0]:
+                cont.update(range(t.start[0], t.end[0]))     # 0-based indices of the lines after the first
+    except (tokenize.TokenError, IndentationError, SyntaxError):
+        cont = None
+    verdict = None
+    first = next((l for l in lines if l.strip() and not l.lstrip().startswith('#')), '')
+    if cont is not None and first[:1] not in (' ', '\t'):      # a statement-like fragment starts at column 0
+        emb = 'match _:\n' + '\n'.join((l if i in cont else ' ' + l) for i, l in enumerate(lines))
+        try:
+            t1 = ast.parse(emb)
+            ok = len(t1.body) == 1 and isinstance(t1.body[0], ast.Match) and (mode == '_match_cases' or len(t1.body[0].cases) == 1)
+            verdict = t1.body[0].cases if ok else None
+        except SyntaxError:
+            verdict = None
+    if not src.strip() and mode == '_match_cases':
+        verdict = []
+    try:
+        f = fst.FST(src, mode)
+        err = None
+    except (SyntaxError, ValueError, fst.NodeError) as e:
+        f, err = None, e
+    except Exception as e:
+        ctx.violation(f'crash|{mode}|{type(e).__name__}', 'the parser raised something other than a syntax/parse error', {'mode': mode, 'src': src, 'error': repr(e)})
+        return
+    ctx.tick((mode, src), f'frag:{mode}:' + ('valid' if verdict is not None else 'invalid'))
+    rec = {'mode': mode, 'src': src, 'verdict': 'valid' if verdict is not None else 'invalid'}
+    if f is None:
+        if verdict is not None and verdict != []:
+            ctx.violation(f'valid-rejected|{mode}', 'a valid case block was rejected', {**rec, 'error': repr(err)})
+        return
+    if f.src != src:
+        ctx.violation(f'lossy|{mode}', 'building the tree changed the source text', {**rec, 'got': f.src})
+        return
+    if verdict is None:
+        ctx.violation(f'invalid-accepted|{mode}', 'a fragment that is not valid for the mode was accepted', {**rec, 'tree': ast.dump(f.a)[:300]})
+        return
+    got = f.a.cases if mode == '_match_cases' else [f.a]
+    if len(got) != len(verdict):
+        ctx.violation(f'result-len|{mode}', 'different number of cases', {**rec, 'got': len(got), 'want': len(verdict)})
+        return
+    for g, x in zip(got, verdict):
+        xs = copy.deepcopy(x)
+        for a in ast.walk(xs):
+            if getattr(a, 'end_lineno', None) is not None:
+                a.lineno -= 1
+                a.end_lineno -= 1
+                if (a.lineno - 1) not in cont:
+                    a.col_offset -= 1
+                if (a.end_lineno - 1) not in cont:
+                    a.end_col_offset -= 1
+        d = cmp_ast(g, xs, positions=True)
+        if d:
+            ctx.violation(f'tree|{mode}', 'the result differs from the cases of the full match statement (positions relative to the fragment)', {**rec, 'diffs': d})
+            return
+
+
 def stage_fragments(ctx: Ctx, progs):
     rng = ctx.rng
     pool = collections.defaultdict(list)
@@ -461,11 +534,34 @@ def stage_fragments(ctx: Ctx, progs):
                 check_fragment(ctx, mode, v, 'multibyte')
         for src in HOSTILE.get(mode, []):
             check_fragment(ctx, mode, src, 'hostile')
+            for _ in range(2):
+                v = multibyte(src, rng)
+                if v != src:
+                    check_fragment(ctx, mode, v, 'hostile')
+            if mode in ('expr', 'stmt', 'expr_arglike') and src:
+                check_fragment(ctx, mode, "'é' + " + src, 'hostile')
+                check_fragment(ctx, mode, src + "  # é", 'hostile')
             # splice hostile text into valid fragments
         for src in cands[:ctx.scale(6, 60)]:
             for h in (')+(', ') if (', '], [', ': pass\n', ')->(', ',', ' as b), (c'):
                 kk = rng.randrange(0, len(src) + 1)
                 check_fragment(ctx, mode, src[:kk] + h + src[kk:], 'hostile')
+    # match_case / _match_cases
+    mc = list(MATCH_CASES)
+    for src in progs:
+        try:
+            for n in ast.walk(ast.parse(src)):
+                if isinstance(n, ast.Match):
+                    mc += [ast.unparse(c) for c in n.cases]
+                    mc.append('\n'.join(ast.unparse(c) for c in n.cases))
+        except SyntaxError:
+            pass
+    for src in list(dict.fromkeys(mc)):
+        for mode in ('match_case', '_match_cases'):
+            check_match_cases(ctx, mode, src)
+            v = multibyte(src, rng)
+            if v != src:
+                check_match_cases(ctx, mode, v)
     # operators
     import fst
     for mode, (pre, post, ext, fam) in OPMODES.items():
